@@ -6,6 +6,16 @@ import time
 
 import z3
 
+
+def zsum(terms):
+    """z3.Sum that never builds a one-argument `+` (cvc5 rejects it)"""
+    terms = list(terms)
+    if not terms:
+        return z3.IntVal(0)
+    if len(terms) == 1:
+        return terms[0]
+    return z3.Sum(terms)
+
 import alphabet as A
 import directive
 import model
@@ -19,6 +29,8 @@ INFO = (("log", "info"),)
 
 
 _SHARD = (0, 1)
+INSTANCES = 4
+SEED = 0
 
 
 def set_shard(shard, nshards):
@@ -45,9 +57,12 @@ def rec(name, res, bound, witness=None, twin=None, extra=None):
     return r
 
 
+CROSS = False  # thorough tier: every query is also given to cvc5
+
+
 def run_query(name, t, cons, goal, bound, timeout=300, twin_goal=True, cross=False, extra=None):
     """goal = condition describing a violation."""
-    res = solve.check(name, cons + [goal], timeout_s=timeout, cross_check=cross)
+    res = solve.check(name, cons + [goal], timeout_s=timeout, cross_check=cross or CROSS)
     witness = None
     if res.verdict == "sat":
         text, codes = solve.text_of_model(res.model, t)
@@ -59,6 +74,9 @@ def run_query(name, t, cons, goal, bound, timeout=300, twin_goal=True, cross=Fal
         if tw.verdict == "sat":
             extra = dict(extra or {})
             extra["instance"] = solve.text_of_model(tw.model, t)[0]
+            # a few more, different, solver-chosen instances for the conformance run on the real find()
+            extra["instances"] = solve.more_instances(t, cons + ([twin_goal] if twin_goal is not True else []), tw.model,
+                                                      INSTANCES - 1, SEED)
         if tw.verdict != "sat":
             res.verdict = "unknown"
             res.note = "vacuity twin is %s" % tw.verdict
@@ -279,7 +297,7 @@ def digit_hole(T, name, k, mark=None):
 
 
 def digits_value(t, start, k):
-    return z3.Sum([(z3.BV2Int(t.c[start + i]) - 48) * (10 ** (k - 1 - i)) for i in range(k)])
+    return zsum([(z3.BV2Int(t.c[start + i]) - 48) * (10 ** (k - 1 - i)) for i in range(k)])
 
 
 def canonical_number(t, start, k):
